@@ -164,7 +164,8 @@ def run(ctx):
                     scheds = scheds[:6]
             for arrivals in scheds:
                 for timer_first in (True, False):
-                    for kinds in (['keepalive'], ['update_ok', 'keepalive', 'update_bad'], ['update_eor', 'update_withdraw']):
+                    for kinds in (['keepalive'], ['update_ok', 'keepalive', 'update_bad'], ['update_eor', 'update_withdraw'],
+                                  ['update_flow4', 'update_vpnv4'], ['update_flow4_wd', 'update_v6']):
                         if kinds[0] != 'keepalive' and (not arrivals or len(arrivals) > 12):
                             continue
                         for ka_delay in ((0, 2) if len(arrivals) <= 3 else (0,)):
